@@ -4,7 +4,7 @@
    directives of our own. *)
 Require Extraction.
 Require Import ExtrOcamlBasic.
-From SF Require Import Base.Prelude Core.Events Cbor.Spec Cbor.Enc Cbor.Parse Ubjson.Spec Ubjson.Enc Ubjson.Parse Base.Utf8 Json.Enc Json.Parse Gotype.Lru.
+From SF Require Import Base.Prelude Core.Events Cbor.Spec Cbor.Enc Cbor.Parse Ubjson.Spec Ubjson.Enc Ubjson.Img Ubjson.Parse Base.Utf8 Json.Enc Json.Parse Gotype.Lru.
 Definition nonfinite_b (w bits : Z) : Z := if nonfinite w bits then 1 else 0.
 Extraction Language OCaml.
 Extraction "sfmodel.ml"
@@ -13,4 +13,4 @@ Extraction "sfmodel.ml"
   cbor_decode cbor_decode_all cbor_run cenc0 w_chunks
   run_parse run_chunks dec_next cparser0
   json_run jenc0 jrun_parse jrun_chunks jdec_next jparser0 sanitize utf8_valid nonfinite_b
-  ubj_decode ubj_run uenc0 urun_parse urun_chunks udec_next uparser0 scalar_value.
+  ubj_img ubj_decode ubj_run uenc0 urun_parse urun_chunks udec_next uparser0 scalar_value.
